@@ -128,6 +128,10 @@ Faithful(t) ==
 (* table separators, call sugar.  (Quote/escape spelling and number         *)
 (* spelling are erased by the projection: leaves carry decoded values.)     *)
 (***************************************************************************)
+RECURSIVE FlattenSame(_, _, _)
+FlattenSame(k, cs, i) == IF i > Len(cs) THEN <<>>
+                         ELSE (IF cs[i].k = k THEN cs[i].c ELSE <<cs[i]>>) \o FlattenSame(k, cs, i + 1)
+
 RECURSIVE Meaning(_, _)
 MeaningList(cs, openLast) == [i \in DOMAIN cs |-> Meaning(cs[i], openLast /\ i = Len(cs))]
 
@@ -137,6 +141,9 @@ Meaning(t, open) ==
          IF open /\ IsMulti(inner) THEN N("trunc", "", <<Meaning(inner, FALSE)>>)
                                    ELSE Meaning(inner, FALSE)
     [] t.k = "semi"  -> Meaning(t.c[1], FALSE)
+    [] t.k = "ttuple" /\ Len(t.c) = 1 -> Meaning(t.c[1], FALSE)           \* a parenthesised Luau type
+    [] t.k \in {"tunion", "tinter"} ->                                     \* unions / intersections are associative
+         N(t.k, "", FlattenSame(t.k, [i \in DOMAIN t.c |-> Meaning(t.c[i], FALSE)], 1))
     [] t.k = "chain" ->
          LET p    == Meaning(t.c[1], FALSE)
              rest == [i \in 1..(Len(t.c) - 1) |-> Meaning(t.c[i + 1], FALSE)]
